@@ -23,10 +23,17 @@ static item_t I[MAXI]; static int NI;
 static vh_sig_t sig;
 static const scpi_command_t cmds[] = { { "CMD", vh_handler, 1 }, { "QRY?", vh_handler, 1 }, { "NOOP", vh_handler, 2 }, { "FAIL", vh_handler, 3 }, SCPI_CMD_LIST_END };
 
-static const struct { const char * s; int unit; double mult; } sufs[] = {
-    { "V", SCPI_UNIT_VOLT, 1 }, { "MV", SCPI_UNIT_VOLT, 1e-3 }, { "kohm", SCPI_UNIT_OHM, 1e3 }, { "HZ", SCPI_UNIT_HERTZ, 1 }, { "mhz", SCPI_UNIT_HERTZ, 1e6 },
-    { "S", SCPI_UNIT_SECOND, 1 }, { "uA", SCPI_UNIT_AMPER, 1e-6 }, { "DBM", SCPI_UNIT_DBM, 1 }, { "Ohm", SCPI_UNIT_OHM, 1 }, { "W", SCPI_UNIT_WATT, 1 } };
-static const char * const badsufs[] = { "FOO", "XYZ", "Q/Q", "VV", "OHMS" };
+/* suffix pool with its meaning in two unit tables: A = the library's scpi_units_def, B = a small application table
+ * (different contexts of one process may use different tables; a lookup must never leak from one into the other) */
+static const struct { const char * s; int ua; double ma; int ub; double mb; } pool[] = {
+    { "V", SCPI_UNIT_VOLT, 1, SCPI_UNIT_VOLT, 1 }, { "MV", SCPI_UNIT_VOLT, 1e-3, SCPI_UNIT_VOLT, 1e-3 }, { "kohm", SCPI_UNIT_OHM, 1e3, -1, 0 }, { "HZ", SCPI_UNIT_HERTZ, 1, -1, 0 },
+    { "mhz", SCPI_UNIT_HERTZ, 1e6, -1, 0 }, { "S", SCPI_UNIT_SECOND, 1, SCPI_UNIT_SECOND, 1 }, { "uA", SCPI_UNIT_AMPER, 1e-6, -1, 0 }, { "DBM", SCPI_UNIT_DBM, 1, -1, 0 },
+    { "Ohm", SCPI_UNIT_OHM, 1, SCPI_UNIT_OHM, 1 }, { "W", SCPI_UNIT_WATT, 1, -1, 0 }, { "M", SCPI_UNIT_METER, 1, SCPI_UNIT_SECOND, 60 }, { "FOO", -1, 0, SCPI_UNIT_UNITLESS, 2 },
+    { "XYZ", -1, 0, -1, 0 }, { "Q/Q", -1, 0, -1, 0 }, { "VV", -1, 0, -1, 0 }, { "OHMS", -1, 0, -1, 0 } };
+#define NPOOL (sizeof pool / sizeof pool[0])
+static const scpi_unit_def_t units_b[] = { { "V", SCPI_UNIT_VOLT, 1 }, { "MV", SCPI_UNIT_VOLT, 1e-3 }, { "S", SCPI_UNIT_SECOND, 1 }, { "OHM", SCPI_UNIT_OHM, 1 },
+    { "M", SCPI_UNIT_SECOND, 60 }, { "FOO", SCPI_UNIT_UNITLESS, 2 }, SCPI_UNITS_LIST_END };
+static int active_tab; /* 0 = table A, 1 = table B; chosen per case */
 static const struct { const char * s; int tag; } ch_ok[] = { { "LOW", 1 }, { "low", 1 }, { "HI", 2 }, { "HIGH", 2 }, { "med", 3 }, { "MEDIUM", 3 }, { "SOUR", 10 }, { "source", 10 } };
 static const struct { const char * s; int tag; } sp_ok[] = { { "MIN", SCPI_NUM_MIN }, { "minimum", SCPI_NUM_MIN }, { "MAX", SCPI_NUM_MAX }, { "DEF", SCPI_NUM_DEF }, { "DEFAULT", SCPI_NUM_DEF },
     { "UP", SCPI_NUM_UP }, { "down", SCPI_NUM_DOWN }, { "NAN", SCPI_NUM_NAN }, { "INF", SCPI_NUM_INF }, { "INFINITY", SCPI_NUM_INF }, { "NINF", SCPI_NUM_NINF }, { "AUTO", SCPI_NUM_AUTO } };
@@ -48,8 +55,13 @@ static void gen_item(vh_rng_t * rng, item_t * it) {
             it->dval = strtod(d, NULL); it->is_plain = !strpbrk(d, "eE");
             it->is_integer = !strpbrk(d, ".eE"); if (it->is_integer) it->ival = strtoll(d, NULL, 10);
             if (t == IT_DEC) snprintf(it->text, sizeof it->text, "%s", d);
-            else if (t == IT_DECSUF) { int k = (int) vh_below(rng, sizeof sufs / sizeof sufs[0]); snprintf(it->text, sizeof it->text, "%s%s%s", d, vh_chance(rng, 1, 2) ? " " : "", sufs[k].s); it->unit = sufs[k].unit; it->mult = sufs[k].mult; }
-            else snprintf(it->text, sizeof it->text, "%s%s%s", d, vh_chance(rng, 1, 2) ? " " : "", badsufs[vh_below(rng, 5)]);
+            else {
+                /* pick a suffix that is known (DECSUF) / unknown (DECBADSUF) in the table of this case's context */
+                int k, tries = 0;
+                do { k = (int) vh_below(rng, NPOOL); } while (((active_tab ? pool[k].ub : pool[k].ua) >= 0) != (t == IT_DECSUF) && ++tries < 200);
+                snprintf(it->text, sizeof it->text, "%s%s%s", d, vh_chance(rng, 1, 2) ? " " : "", pool[k].s);
+                if (t == IT_DECSUF) { it->unit = active_tab ? pool[k].ub : pool[k].ua; it->mult = active_tab ? pool[k].mb : pool[k].ma; }
+            }
             /* a number directly followed by a letter that starts an exponent must not be generated: "2e3" + "E.." etc. are fine, but "1" + "E.." is not a suffix */
             snprintf(it->payload, sizeof it->payload, "%s", it->text); it->plen = strlen(it->text);
             break;
@@ -196,6 +208,7 @@ static void p0_run(uint64_t idx, vh_rng_t * rng) {
     int unknown = 0; char key[160]; const char * q = "";
     scpi_bool_t ret; const vh_inv_t * inv;
     (void) idx;
+    active_tab = (int) vh_below(rng, 2);
     memset(&sig, 0, sizeof sig);
     sig.nsteps = (int) vh_below(rng, 5);
     for (j = 0; j < sig.nsteps; j++) { sig.steps[j].kind = readers[vh_below(rng, NREADERS)]; sig.steps[j].mandatory = (uint8_t) vh_chance(rng, 3, 4); sig.steps[j].cap = (uint16_t) (60 + vh_below(rng, 10)); }
@@ -240,6 +253,7 @@ static void p0_run(uint64_t idx, vh_rng_t * rng) {
     (void) exp_any_of;
 
     v = vh_ctx_new(cmds, 700, 8, 128); v->log_enabled = 0; v->sigs = &sig; v->nsigs = 1;
+    if (active_tab) { v->ctx->units = units_b; vh_count("units.application_table", 1); }
     ret = vh_input(v, msg.p, msg.len);
     vh_eval(1);
     inv = v->ninv ? &v->inv[0] : NULL;
@@ -306,6 +320,7 @@ static void p1_run(uint64_t idx, vh_rng_t * rng) {
     const char * frag = malformed[vh_below(rng, sizeof malformed / sizeof malformed[0])];
     const vh_inv_t * inv;
     (void) idx;
+    active_tab = 0;
     memset(&sig, 0, sizeof sig);
     sig.nsteps = (int) vh_below(rng, 4);
     for (j = 0; j < sig.nsteps; j++) { sig.steps[j].kind = vh_chance(rng, 1, 2) ? VR_RAW : readers[vh_below(rng, NREADERS)]; sig.steps[j].mandatory = (uint8_t) vh_chance(rng, 1, 2); sig.steps[j].cap = 64; }
@@ -460,6 +475,6 @@ int main(int argc, char ** argv) {
     vh_require("clause.error-224"); vh_require("clause.error-200"); vh_require("clause.optional_absent_silent"); vh_require("clause.item_delivered_whole");
     vh_require("clause.no_error"); vh_require("clause.malformed_gets_command_error"); vh_require("clause.return_true"); vh_require("clause.return_false");
     vh_require("clause.return_false_on_overrun"); vh_require("ws.after_item"); vh_require("clause.multi_unit_two_or_more_errors");
-    vh_require("clause.array_all_delivered"); vh_require("clause.array_missing_mandatory");
+    vh_require("units.application_table"); vh_require("clause.array_all_delivered"); vh_require("clause.array_missing_mandatory");
     return vh_main(argc, argv, "C05", phases, 5);
 }
